@@ -474,6 +474,41 @@ gauge of the strategy-based throttling remedy panics (integer divide by zero) wh
 between the publication of a never-seen pair's state and that pair's first increment. The
 new scenario C18Q reproduces it (seed 1000061); fix `afac3f1`.
 
+Fourteenth wave (suffix n), 16 changes: 5 were caught as delivered (C03n, C04n, C06n, C19n,
+C20n); three generators had been widened while the sub-agents were still at work and caught
+their change at the first try (C09n: shares above 100 %; C15n: status codes that have no
+registered name; C12n: a header a later remedy adds to the response after it was stored must
+not come back in a replay); 8 were missed at first. What was changed:
+C01n (group values differed in more than their case: `A` is a group beside `a` now),
+C02n (a request-side processor of a user flow fails after the quota admitted the transaction
+- the gateway is fail-open, the call goes to the provider and keeps its slot: the `proc.execute`
+fault on the request side, and the extra flow sits on the quota's own URL in half of the runs
+so that it runs after the admission),
+C10n (the roll-over goroutine was never late: a fault holds it back for 100-700 ms after its
+timer fired at a window boundary; the roll-over of that instant is not judged, the following
+ones are - the queue has to be back on the grid),
+C11n (a response exactly at the end of the retention period was not judged: the last instant
+of the period is within it, and the clock stops there; 88 000 runs of the unchanged tree
+without a report),
+C18n (a write lock kept on an error branch that only overlapping writers reach - no race, the
+next operation waits for ever: the kernel counts the instrumented locks a task still holds
+when its function returns (`Sim.LeakedLocks`), C12 reports it after every step; caught by the
+C12 check),
+C08n (the engine that a reload replaced is emptied while a transaction that had fetched it
+still runs: the C18 check reports the race in its quick tier, the C08 check the transaction
+that was handled by neither configuration in 30 000 runs (seed 1011355), not in its quick
+tier. That long run also produced a false alarm of C08 R5, corrected, section 11.3),
+C17n (the flow context created lazily, unsynchronised, by its first users: needed a flow with
+a Retry processor under the race detector - C18R loads one and sends it 503 responses; caught
+by the C18 check),
+C05n (the cycle check of the validator no longer follows connections that cross into another
+flow): **not caught.** The configuration that shows it - a request processor handing over to a
+second flow's start, that flow's end leading back - is among the generated references now, and
+the dry run builds the two flows in either order, but the generated second flows are refused
+by the builder ("foreign root node not found") before the cycle check is reached; the
+hand-written pair of the sub-agent's demonstration is accepted by the changed validator and
+overflows the stack. Left as a known gap of the C05 generator.
+
 ### 12.1 Reverting the repairs
 
 `tools/revert_all_fixes.py` reverts every `fix:` commit, one at a time, in a scratch worktree
